@@ -146,17 +146,29 @@ def check_frame(I, con, spec, views, old_heap, name):
                 objv, fname = w
                 idt = objv.id if hasattr(objv, "id") else Z.Val.id(_term(objv))
                 allowed.setdefault(fname, []).append(lambda x, idt=idt: x == idt)
-    for fname, arr in ctx.heap.items():
-        old = old_heap.get(fname, ctx.heap0.get(fname))
-        if old is None or arr.eq(old):
+    # every heap location written by the code itself (directly or through a callee's frame) lies in the declared
+    # frame or belongs to an object allocated during the call; what the ENVIRONMENT changes meanwhile is not a write
+    seen = set()
+    x = z3.Int("fx")
+    for fname, kind, what in ctx.own_stores:
+        if fname in ("__context__", "__cause__", "__suppress_context__") or fname.startswith("$ghost") or fname.startswith("rec:") or fname.startswith("$arg") or fname == "$nargs":
             continue
-        if fname in ("__context__",) or fname.startswith("$ghost"):
-            continue
-        x = z3.Int("fx")
         preds = allowed.get(fname, [])
-        inW = z3.Or(*[p(x) for p in preds]) if preds else z3.BoolVal(False)
-        goal = z3.ForAll([x], z3.Implies(z3.And(x < ctx.alloc0, z3.Not(inW)), z3.Select(arr, x) == z3.Select(old, x)))
-        ctx.oblige("%s/frame[%s]" % (name, fname), goal, kind="frame")
+        if kind == "id":
+            key = (fname, what.sexpr())
+            if key in seen:
+                continue
+            seen.add(key)
+            inW = z3.Or(*[p(what) for p in preds]) if preds else z3.BoolVal(False)
+            ctx.oblige("%s/frame[%s]" % (name, fname), z3.Or(what >= ctx.alloc0, inW), kind="frame")
+        else:
+            inW = z3.Or(*[p(x) for p in preds]) if preds else z3.BoolVal(False)
+            goal = z3.ForAll([x], z3.Implies(z3.And(x < ctx.alloc0, what(x)), inW))
+            key = (fname, goal.sexpr())
+            if key in seen:
+                continue
+            seen.add(key)
+            ctx.oblige("%s/frame[%s]" % (name, fname), goal, kind="frame")
 
 
 def explore(E, con, fi, res, body_runner=None):
